@@ -352,6 +352,13 @@ def run(ctx):
                 fwd_ |= set(h.reach([g_.target], avoid_blocks=rm__ + [gets_[0].block]))
             bwd_ = set(h.backreach([gets_[0].block], avoid_blocks=rm__))
             between = [c for c in h.calls(*sorted(role_writers)) if c.block in fwd_ and c.block in bwd_]
+            # ... and from the routing decision itself: what follows an inference (or the command handler) on the way to the checkout, within the same
+            # message, writes the role no more - whatever the inference returned (its Err reports a shard problem, the role it set for a write stands)
+            claim__ = h.calls("pgcat::server::Server::claim")
+            decided = [c for c in h.calls(*infer_like) + h.calls("pgcat::client::Client::handle_custom_protocol") if c.target is not None and not (claim__ and h.dominates(claim__[0].block, c.block))]
+            fwd2_ = set(h.reach([c.target for c in decided], avoid_blocks=rm__ + [gets_[0].block])) if decided else set()
+            infer_blocks_ = {c.block for c in h.calls(*infer_like)}
+            between += [c for c in h.calls(*sorted(role_writers)) if c.block in fwd2_ and c.block in bwd_ and c.block not in infer_blocks_ and c not in between]
             r4.check(not between, "role-stable-until-checkout", "no QueryRouter method that writes the role is called between the pool refresh and the checkout (writers: %s)" % sorted(x.split("::")[-1] for x in role_writers),
                      "%s is called after the routing decision and right before ConnectionPool::get: the role inferred for this message (or set with SET SERVER ROLE) is overwritten - a write goes to a replica when the pool's default role says so"
                      % sorted({c.name.split("::")[-1] for c in between}), between[0].where() if between else "")
